@@ -36,3 +36,19 @@ Print Assumptions c05_addpath_tuples.
 Theorem c05_message_from_bytes : forall b t, wf_bytes b = true -> returns (message_from_bytes b t).
 Proof. exact message_from_bytes_total. Qed.
 Print Assumptions c05_message_from_bytes.
+
+(* API-order half (registry / lifecycle model, Server.v): a second Serve on a serving server is refused and changes
+   nothing; a server whose Serve has returned (Close, failing listener) is never restarted by any later call sequence.
+   (The panic these orders caused on the pinned tree is finding D16, repaired.) *)
+From Coq Require Import List.
+From Verif Require Import Server ServerSpec ServerProofs.
+Theorem c05_second_serve_refused : forall s,
+  s_serving s = true -> s_closed s = false -> server_step s OServe = (s, SServeBusy).
+Proof. exact serve_while_serving. Qed.
+Print Assumptions c05_second_serve_refused.
+
+Theorem c05_finished_server_never_serves : forall ops s,
+  inv s -> s_closed s = true -> s_serving s = false ->
+  Forall (fun st => s_serving st = false /\ s_running st = nil) (run_states s ops).
+Proof. exact finished_server_never_serves. Qed.
+Print Assumptions c05_finished_server_never_serves.
